@@ -3,7 +3,9 @@ package server
 // C33 — IS-IS survives any sequence of interface state changes.
 //
 // Space: every sequence over {up, down} of length <= N delivered as device
-// updates to (a) a server with one active interface, (b) a server with one
+// updates to (a) a server with one active interface, (a') the same with a
+// neighbour on the link whose hello exchange follows every link-up (so that
+// later events hit an interface that holds an adjacency), (b) a server with one
 // passive interface, (c) a server with both, events interleaved across the two
 // (length <= M). Every sequence is one controlled execution (bound 0) on a fresh
 // real Server: after each event the clock is advanced by 10 s so that every
@@ -42,11 +44,12 @@ type zvC33Result struct {
 	AdjOK    bool
 	ActiveUp bool
 	Restarts int // ethernet handles created for the active interface
+	MidAdj   int // adjacencies formed after link-ups inside the sequence (scenario active+nbr)
 }
 
 func zvC33Ifs(scn string) []zvIfSpec {
 	switch scn {
-	case "active":
+	case "active", "active+nbr":
 		return []zvIfSpec{zvIfEth0}
 	case "passive":
 		return []zvIfSpec{zvIfLo}
@@ -89,6 +92,15 @@ func zvC33Run(scn string, evs []string, trace bool) zvC33Result {
 				fail("device-update-blocks", vh.Sig("clause", "device-update-blocks", "event", e[2:]),
 					"device update %v never returns: %s", p, vsched.Describe())
 				return
+			}
+			if scn == "active+nbr" && isUp && name == "eth0" {
+				// a neighbour is present on the link: its hello exchange follows every link-up
+				w.bringUp(zvNbr1, 30)
+				for _, a := range w.adjacencies() {
+					if a.Status == packet.P2PAdjStateUp {
+						res.MidAdj++
+					}
+				}
 			}
 			vsched.Advance(10 * time.Second)
 			hellos = 0
@@ -169,7 +181,7 @@ func TestVerifC33(t *testing.T) {
 	if r.Thorough() {
 		n, m = 8, 7
 	}
-	r.Rule(fmt.Sprintf("all sequences over {up,down} of length <= %d on an active-only and on a passive-only server, and all interleavings over {a:up,a:down,p:up,p:down} of length <= %d on a server with both; "+
+	r.Rule(fmt.Sprintf("all sequences over {up,down} of length <= %d on an active-only server (with and without a neighbour answering every link-up) and on a passive-only server, and all interleavings over {a:up,a:down,p:up,p:down} of length <= %d on a server with both; "+
 		"one controlled execution (bound 0) per sequence, 10 virtual seconds after every event; non-trivial = sequences with at least one up->down or down->up change", n, m))
 	r.Require("active_up_final", "hello_after_up", "adjacency_after_up", "restarts_seen", "passive_up_down")
 	r.Extra("max_len_single", n)
@@ -187,6 +199,12 @@ func TestVerifC33(t *testing.T) {
 		}
 		return
 	}
+	{
+		h := []string{"a:up", "p:up", "a:down", "a:up"}
+		if a, b := zvC33Run("both", h, false), zvC33Run("both", h, false); fmt.Sprintf("%+v", a) != fmt.Sprintf("%+v", b) {
+			r.Fatalf("replaying the same sequence twice gave different results:\n%+v\n%+v", a, b)
+		}
+	}
 	type job struct {
 		scn string
 		evs []string
@@ -194,6 +212,9 @@ func TestVerifC33(t *testing.T) {
 	var jobs []job
 	for _, s := range zvC33Seqs([]string{"a:up", "a:down"}, n) {
 		jobs = append(jobs, job{"active", s})
+	}
+	for _, s := range zvC33Seqs([]string{"a:up", "a:down"}, n) {
+		jobs = append(jobs, job{"active+nbr", s})
 	}
 	for _, s := range zvC33Seqs([]string{"p:up", "p:down"}, n) {
 		jobs = append(jobs, job{"passive", s})
@@ -254,6 +275,7 @@ func TestVerifC33(t *testing.T) {
 		if res.AdjOK {
 			r.Count("adjacency_after_up", 1)
 		}
+		r.Count("adjacencies_inside_sequences", res.MidAdj)
 		r.Outcome(fmt.Sprintf("%s|%v|%v|%v|%s", j.scn, res.ActiveUp, res.HelloOK, res.AdjOK, res.Clause))
 		if res.FailedAt == len(j.evs)-1 {
 			r.Violation(res.Sig, zvC33Case{j.scn, j.evs}, "[%s %v] %s", j.scn, j.evs, res.Desc)
